@@ -371,7 +371,7 @@ def write_evidence(mod, pid, tier, seed, obligations, discharged, refuted, unkno
             obligations=len(obligations), discharged=len(discharged),
             checker_cmd="./check %s --tier %s" % (pid, tier),
             trusted_base=["pyvc engine (/verif/pyvc: symbolic values, path exploration, loop-nest summarisation rule)",
-                          "z3 %s" % z3.get_version_string(), "cvc5 1.0.3 (second opinion on z3 unknowns)",
+                          "z3 %s" % z3.get_version_string(), "cvc5 1.0.3 (second opinion on z3 unknowns)", "sympy rational normal form (cancel), only for obligations whose back end names it",
                           "CPython semantics of the compiled repo AST", "integers mathematical, floats as reals (no rounding)"]
             + list(getattr(mod, "TRUSTED", [])),
             samples=samples or [dict(note="no obligation generated")],
